@@ -37,6 +37,7 @@ def plan(tier, seed):
         specs.append(dict(name="phases-%d" % i, mode="interp", what="phases", input=i, seed=seed))
     specs.append(dict(name="frontends", mode="interp", what="frontends", seed=seed))
     specs.append(dict(name="initfaults", mode="interp", what="initfaults", seed=seed, n=6 if q else 30))
+    specs.append(dict(name="natural", mode="interp", what="natural", seed=seed, n=4 if q else 16))
     for p in range(2 if q else 6):
         specs.append(dict(name="shortage-%d" % p, mode="interp", what="shortage", part=p, parts=2 if q else 6, Kmax=4 if q else 5))
     for p in range(2 if q else 6):
@@ -92,11 +93,75 @@ def children_of_self():
     return live
 
 
+def _cpu_ticks(pids):
+    tot = 0
+    for pid in pids:
+        try:
+            with open("/proc/%d/stat" % pid) as f:
+                parts = f.read().rsplit(")", 1)[1].split()
+            tot += int(parts[11]) + int(parts[12])
+        except (OSError, IndexError, ValueError):
+            pass
+    return tot
+
+
+class HangGuard:
+    """Logical hang detection around one call (quick tier too): if the call has not come back after `patience` seconds (cases take
+    well under a second), the guard looks for *evidence* that it never will: the main thread is blocked in the pool's wait/get, and
+    over a further observation window neither this process' workers nor its own threads consume any CPU time.  Only then is the
+    hang reported as a violation; otherwise the firing is inconclusive."""
+
+    def __init__(self, res, case, label, patience=45.0):
+        self.res, self.case, self.label, self.patience = res, case, label, patience
+        self.done = threading.Event()
+
+    def __enter__(self):
+        self.t = threading.Thread(target=self._watch, daemon=True)
+        self.t.start()
+        return self
+
+    def __exit__(self, *a):
+        self.done.set()
+        return False
+
+    def _watch(self):
+        if self.done.wait(self.patience):
+            return
+        main_id = threading.main_thread().ident
+        frame = sys._current_frames().get(main_id)
+        stack = traceback.extract_stack(frame) if frame else []
+        in_wait = any(f.filename.endswith(("multiprocessing/pool.py", "threading.py", "multiprocessing/connection.py")) and
+                      f.name in ("wait", "get", "join", "_wait_for_tstate_lock", "poll") for f in stack)
+        kids = children_of_self()
+        t0 = _cpu_ticks(kids + [os.getpid()])
+        if self.done.wait(5.0):
+            return
+        t1 = _cpu_ticks(kids + [os.getpid()])
+        idle = (t1 - t0) <= 2
+        ev = dict(stack_tail=["%s:%s" % (os.path.basename(f.filename), f.name) for f in stack[-4:]], blocked_in_pool_wait=in_wait,
+                  live_workers=len(kids), cpu_ticks_in_5s=t1 - t0)
+        self.res.counters["hang_evidence_" + self.label[:40]] = ev
+        if in_wait and idle:
+            self.res.violation("%s: the call neither returns nor raises: main thread blocked in %s for %ds while its %d worker(s) and "
+                               "threads use no CPU (nothing will ever deliver the result)" % (
+                                   self.label, ev["stack_tail"][-2:], int(self.patience) + 5, len(kids)), self.case)
+        else:
+            self.res.inconclusive.append("%s: watchdog fired without the logical evidence of a hang: %s" % (self.label, ev))
+        self.res.flush()
+        for k in kids:
+            try:
+                os.kill(k, 9)
+            except OSError:
+                pass
+        os._exit(0)
+
+
 def faulted_call(res, case, expect, label, key):
     """Run `case` (which carries a fault plan); check the C20 oracle.  expect = (exception class name, message substring)."""
     with warnings.catch_warnings(record=True) as rec:
         warnings.simplefilter("always")
-        run = e2e.run_case(case)
+        with HangGuard(res, case, label):
+            run = e2e.run_case(case)
         held = run.exc
         res.evaluations += 1
         fired = held is not None
@@ -138,6 +203,7 @@ def faulted_call(res, case, expect, label, key):
 def _fault_reached(run, case):
     if (case.get("init") or {}).get("kind") == "raise":
         return True
+    # (the "natural" scenario injects nothing: when eigh happens not to raise on the NaN covariance there is no failure to surface)
     for k in (case.get("task_plan") or {}):
         if int(k) < len(run.tasks):
             return True
@@ -205,9 +271,10 @@ def run_phases(spec, res):
     if info is None:
         res.inconclusive.append("clean reference run of input %d failed" % spec["input"])
         return
+    PH_ROT = EXC_ROT + ["KeyboardInterrupt", "SystemExit"]
     for j, (ph, rnd) in enumerate(info["phases"]):
         for when in ("before", "after"):
-            cls = EXC_ROT[(j + (when == "after")) % len(EXC_ROT)]
+            cls = PH_ROT[(j + (when == "after")) % len(PH_ROT)]
             msg = "phase-%s-%d-%s" % (ph, rnd, when)
             c = dict(case)
             c["phase_plan"] = [(ph, rnd)]
@@ -328,6 +395,34 @@ def run_shortage(spec, res):
                     res.count("shortage_states_with_partial_capacity")
                     res.nontriv("shortage-%s-%d" % (sizes, m))
     res.sample(dict(what="shortage grid", example=dict(sizes=[0, 0, 0, 7], m=2, capacity=2, recipients=3)))
+
+
+def run_natural(spec, res):
+    """A failure that arises inside a worker on its own: a one-window cluster under the unbiased estimator has a NaN covariance and the
+    optimiser's eigen-decomposition raises LinAlgError in the worker.  Same oracle: the error surfaces, nothing hangs, no worker stays."""
+    rng = np.random.default_rng([spec["seed"], 204])
+    for j in range(spec["n"]):
+        wc.NW_CAP[0] = 6
+        case = wc.gen_single(rng, "small")
+        case["data"]["flavor"] = "plain"
+        case["data"]["T"] = 50
+        case["data"]["N"] = int(rng.integers(2, 4))
+        case["W"] = int(rng.integers(1, 3))
+        case["K"] = 3
+        case["biased"] = False
+        case["biased_form"] = "bool"
+        case["eps"] = 0.0
+        case["limit"] = 3
+        case["mp"] = bool(j % 2)
+        case["nproc"] = 3
+        case["task_plan"] = {}
+        case["init"] = dict(kind="giant", small=1)        # clusters 1..K-1 hold exactly one window each
+        fired = faulted_call(res, case, ("LinAlgError", ""), "natural LinAlgError inside a worker (%s pool)" % ("3-process" if case["mp"] else "single-process"),
+                             "natural-%d" % j)
+        if fired:
+            res.count("natural_worker_failures")
+        if j == 0:
+            res.sample(case)
 
 
 def run_nodonor(spec, res):
@@ -478,6 +573,8 @@ def run_shard(spec, res):
         run_initfaults(spec, res)
     elif what == "shortage":
         run_shortage(spec, res)
+    elif what == "natural":
+        run_natural(spec, res)
     else:
         run_death(spec, res)
 
@@ -515,7 +612,7 @@ def finalize(merged, tier):
     q = tier == "quick"
     c = merged["counters"]
     for key, least in (("faults_fired", 25 if q else 300), ("clean_calls_after_failure", 25 if q else 300), ("frontend_swaps", 9),
-                       ("init_faults_fired", 4 if q else 20), ("shortage_states_with_partial_capacity", 200 if q else 2000),
+                       ("init_faults_fired", 4 if q else 20), ("natural_worker_failures", 3 if q else 12), ("shortage_states_with_partial_capacity", 200 if q else 2000),
                        ("nodonor_errors", 2 if q else 6)):
         if c.get(key, 0) < least:
             out["inconclusive"].append("monitor counter %s=%d below %d" % (key, c.get(key, 0), least))
